@@ -90,7 +90,7 @@ type End struct {
 	// Sent records everything written on this end *before* the hook.
 	Sent []byte
 	// Got records everything this end has read.
-	Got []byte
+	Got    []byte
 	Record bool
 
 	// Op counting / stall: ops (reads that had to be served and writes) are
